@@ -200,6 +200,11 @@ def entries() -> t.List[t.Tuple[str, dict, t.List[dict]]]:
                                       'G': P(('o', 'oneof', ['CA', 'F'])),
                                       'O': P(('c', 'switch', {'switch': 'S', 'cases': [['a', 'PL'], ['b', 'G']], 'name': 'swm'}))},
                             'input': 'I', 'output': 'O'})
+    # --- keyword-only parameters
+    add('kwonly_rhombus', {'nodes': {'I': dict(P(('x', 'plain')), kwonly=True), 'A': dict(P(('p', 'in', 'I')), kwonly=True),
+                                     'B': dict(P(('p', 'in', 'I')), kwonly=True, attempts=2), 'C': dict(P(('p', 'in', 'I')), kwonly=True),
+                                     'O': dict(P(('a', 'in', 'A'), ('b', 'oneof', ['B', 'C'])), kwonly=True)}, 'input': 'I', 'output': 'O'},
+        [{'B': ['raise:E1', 'ok']}, {'B': ['raise:E1', 'raise:E2']}])
     # --- a one-node pipeline given as build_dag(node, node)
     add('single', {'nodes': {'I': P(('x', 'plain'))}, 'input': 'I', 'output': 'I'}, [{'I': ['raise:E1']}, {'I': ['none']}])
     # --- nodes that declare no marks at all (and are not the input node): the builder links them to the input node
